@@ -9,6 +9,7 @@ import (
 	"go/token"
 	"go/types"
 	"os"
+	"sort"
 	"strings"
 
 	"golang.org/x/tools/go/ssa"
@@ -43,6 +44,59 @@ const maxPaths = 4000
 const maxInlineDepth = 6
 
 var dbgSeen = map[string]int{}
+
+// loopVarsOf lists the named loop-carried variables of a function (by loop ordinal and phi position).
+func loopVarsOf(fr *frame) []LoopVar {
+	var out []LoopVar
+	for _, li := range fr.loops {
+		k := 0
+		for _, ins := range li.header.Instrs {
+			phi, ok := ins.(*ssa.Phi)
+			if !ok {
+				break
+			}
+			k++
+			if phi.Comment != "" {
+				out = append(out, LoopVar{Loop: li.ordinal, Index: k, Name: phi.Comment, Type: typeKey(phi.Type())})
+			}
+		}
+	}
+	sort.Slice(out, func(i, j int) bool {
+		if out[i].Loop != out[j].Loop {
+			return out[i].Loop < out[j].Loop
+		}
+		return out[i].Index < out[j].Index
+	})
+	return out
+}
+
+// renamed: the present name of a loop-carried variable a contract still calls by its registered name.
+func (fc *fnCtx) renamed(name string) (string, bool) {
+	if fc.top == nil {
+		return "", false
+	}
+	reg := fc.e.loopVars[fc.key]
+	if len(reg) == 0 {
+		return "", false
+	}
+	cur := loopVarsOf(fc.top)
+	known := map[string]bool{}
+	for _, r := range reg {
+		known[r.Name] = true
+	}
+	for _, r := range reg {
+		if r.Name != name {
+			continue
+		}
+		for _, c := range cur {
+			if c.Loop == r.Loop && c.Index == r.Index && c.Type == r.Type && c.Name != name && !known[c.Name] {
+				fc.e.warnings[fmt.Sprintf("%s: contract identifier %q resolved to the renamed loop variable %q (loop %d)", fc.key, name, c.Name, c.Loop)] = true
+				return c.Name, true
+			}
+		}
+	}
+	return "", false
+}
 
 // calleeName: the name a hint target `call NAME#K` refers to (method or function name without type arguments)
 func calleeName(c *ssa.CallCommon) string {
@@ -500,6 +554,11 @@ func (fc *fnCtx) atLoopHeader(st *State, fr *frame, li *loopInfo, pred *ssa.Basi
 	sc.useNames = true
 	if li.spec == nil {
 		fc.unsupported("loop %d of %s has no invariant/decreases clause", li.ordinal, fr.key)
+	}
+	if li.spec.Unreachable != nil {
+		// the contract says no path reaches this loop under the precondition: prove it and stop here
+		fc.emit(st, fc.oblName(fr, lname+".unreachable"), "loop.init", "no path reaches this loop under the function's precondition", clauseLoc(li.spec.Unreachable), "false", li.spec.Unreachable.Tags)
+		return false
 	}
 	if fromInside {
 		for _, inv := range li.spec.Invariants {
